@@ -48,6 +48,8 @@ def run(ctx):
     ctx.guarded("R07.9", "fifo", lambda: fifo(ctx, "R07.9", "response_queue", {"push_back", "pop_front", "clear"}))
     ctx.rule("R07.10", "what can enter a connection's response queue: the application's response through respond() -> ClientConnection::enqueue_response, the 400 of ClientConnection::read, the Continue of the header parser -- nothing else pushes, nobody else calls the enqueue methods")
     ctx.guarded("R07.10", "producers", lambda: producers(ctx, "R07.10"))
+    from .c09 import closed_enqueue as _closed_enqueue7
+    ctx.guarded("R07.10", "connection-level-enqueue-callers", lambda: _closed_enqueue7(ctx, "R07.10"))
 
 
 def ids(ctx):
